@@ -34,7 +34,7 @@ Proof. exact RewriteFacts.C07_kernel_generator_nested_refuted. Qed.
 Print Assumptions C07_kernel_generator_nested_refuted.
 
 (** fix-hasattr-call: the rewritten call is left alone *)
-Theorem C07_kernel_hasattr_stable : forall a, hasattr_step (MiniPy.ECall MiniPy.BCallable [a]) = MiniPy.ECall MiniPy.BCallable [a].
+Theorem C07_kernel_hasattr_stable : forall cfg a, hasattr_step cfg (MiniPy.ECall MiniPy.BCallable [a]) = MiniPy.ECall MiniPy.BCallable [a].
 Proof. exact C07_kernel_hasattr_step_stable. Qed.
 Print Assumptions C07_kernel_hasattr_stable.
 
@@ -53,3 +53,16 @@ Print Assumptions C07_replace_args_idempotent_single_call.
 Theorem C07_nested_selected_calls_refuted : ltac:(let T := type of C16.C07_nested_refuted in exact T).
 Proof. exact C16.C07_nested_refuted. Qed.
 Print Assumptions C07_nested_selected_calls_refuted.
+
+(** fix-empty-sequence-comparison and literal-or-new-object-identity build the replacement from the ORIGINAL operands, so a
+    matching comparison inside an operand is only rewritten by a second run
+    ([((v1 == []) == [])], [((v1 is []) is [])]; both reproduced on the real codemods) *)
+Theorem C07_kernel_empty_seq_refuted : forall cfg,
+  MiniPy.wf w_es_nested = true /\
+  empty_seq_file cfg false (empty_seq_file cfg false w_es_nested) <> empty_seq_file cfg false w_es_nested.
+Proof. exact RewriteFacts.C07_kernel_empty_seq_refuted. Qed.
+Print Assumptions C07_kernel_empty_seq_refuted.
+Theorem C07_kernel_identity_refuted :
+  MiniPy.wf w_id_nested = true /\ rw_identity (rw_identity w_id_nested) <> rw_identity w_id_nested.
+Proof. exact RewriteFacts.C07_kernel_identity_refuted. Qed.
+Print Assumptions C07_kernel_identity_refuted.
